@@ -375,7 +375,10 @@ func (e *Engine) localEffectsOwner(fi *FuncInfo, owner *FuncInfo) *FuncEffects {
 						// write into a local struct variable; still record (harmless over-approximation)
 					}
 				}
-				lvalKeys(x.X)
+				// a field of a package-level struct variable
+				if id, ok := x.X.(*ast.Ident); ok {
+					lvalKeys(id)
+				}
 			}
 			for _, k := range e.writeKeys(key, ft) {
 				fe.Writes[k] = true
